@@ -1,3 +1,5 @@
+//go:debug randseednop=0
+
 package verifsim
 
 import (
@@ -7,6 +9,7 @@ import (
 	"encoding/json"
 	"fmt"
 	"hash/fnv"
+	"math/rand"
 	"os"
 	"runtime"
 	"strconv"
@@ -99,6 +102,8 @@ func runOne(t *testing.T, sc *props.Scenario, tier string, wt, st *simkit.Tape) 
 	body := func(t *testing.T) {
 		kseed := uint64(wt.Choose(1<<30)) + 1
 		ksuid.SetRand(&prngReader{s: kseed})
+		// the global math/rand source feeds the jitter of cenkalti/backoff (localfs, purge): pin it to the seed
+		rand.Seed(int64(kseed)) //nolint:staticcheck
 		cfg := sc.Cfg
 		cfg.Immediate = sc.NoBubble
 		w := simkit.NewWorld(t, wt, st, cfg)
